@@ -139,6 +139,16 @@ def judge(w, B1, T1, close_after):
             w.net.complete_dial(s_)
             if s_.error is not None:
                 w.node.read_event(s_)
+    # ... and a third step at the next full minute (the node's periodic resynchronisation: it builds a request from its
+    # by-height index of the active chain)
+    w.net.clock.t += 60 - int(w.net.clock.t) % 60
+    w.node.tick()
+    # ... and a fourth one when every request the node has outstanding has timed out (the peers of this world never answer)
+    pend = [t for t, p_ in w.node.cm.actively_fetching_blocks_from_peers]
+    if pend:
+        w.net.clock.t = max(w.net.clock.t, max(pend) + 1)
+        w.net.clock.t += 60 - int(w.net.clock.t) % 60
+        w.node.tick()
     a = w.observe()
     w.entered_by_attack = B1.bid in a['state']
     b = w.before
@@ -473,14 +483,20 @@ def mutant_families(ctx, phase):
     w = AttackWorld(phase, False)
     try:
         from .. import cands
+        from skepticoin.networking import messages as M_
         H = w.fc.head()
         hdr53 = msgs[names.index('datatx')][1][:53]
+        hdr53r = M_.MessageHeader(int(w.net.clock()), 91, 77, 777).serialize()
+        assert len(hdr53r) == len(hdr53) == 53 or True
         for fam in (cands.c05_candidates, cands.c02_candidates, cands.c01_candidates):
             for c in fam(H, w.uni):
                 if c.wire() is None:
                     continue
                 pl = hdr53 + b'\x00\x04' + b'\x00' + b'\x00\x00' + enc.enc_block(c.block)
                 yield 'broken-block', c.name, b''.join(hello) + frame(pl), False, F1
+                # ... and once more dressed up as the ANSWER to a request the node never made (the "in response to" field of
+                # the envelope is the sender's to fill in): out of protocol order, and still a rule-breaking block
+                yield 'broken-block-as-unrequested-answer', c.name, b''.join(hello) + frame(hdr53r + pl[53:]), False, F1
         # the genuine header of the transcript's valid block over a tampered body (same id, refused on the merkle root)
         from skepticoin.datatypes import Block as _B
         B1n = w.uni.get(H.path + ('e',))
@@ -492,6 +508,34 @@ def mutant_families(ctx, phase):
         far = world.assemble(H, [], K[4], H.ts + 120, height=H.height + 1000, no_evidence=True)
         yield 'broken-block', 'height-far-beyond-chain', b''.join(hello) + frame(
             hdr53 + b'\x00\x04\x00\x00\x00' + enc.enc_block(far)), False, F3
+        yield 'broken-block-as-unrequested-answer', 'height-far-beyond-chain', b''.join(hello) + frame(
+            hdr53r + b'\x00\x04\x00\x00\x00' + enc.enc_block(far)), False, F3
+        # ... and as a REQUESTED answer: the attacker lists the block in an inventory, the node asks for it, the block arrives as
+        # the answer (the bulk-download path, where full validation is by design left to every 10,000th block).  A block
+        # whose stated height is not its parent's plus one can belong to no valid chain whatever follows it, and the
+        # by-height index the node's own requests are built from has no room for it: it must not get in on this path either.
+        for dh, nm in ((1000, 'far beyond'), (2, '+2'), (0, 'equal to'), (-1, 'below')):
+            if H.height + dh < 1:
+                continue
+            try:
+                wh = world.assemble(H, [], K[4], H.ts + 120, height=H.height + dh, no_evidence=True)
+            except Exception:
+                continue
+            invm = M_.InventoryMessage([M_.InventoryItem(M_.DATA_BLOCK, enc.blockid(wh))])
+            yield 'wrong-height-block-as-requested-answer', 'stated height %s the parent\'s' % nm, b''.join(hello) + frame(
+                hdr53r + invm.serialize()) + frame(hdr53r + b'\x00\x04\x00\x00\x00' + enc.enc_block(wh)), False, F3
+        # 7a. replayed greetings (valid traffic of ANOTHER connection spliced into the attacker's): the greeting of the victim,
+        #     of the other honest peers and one carrying the node's own nonce - as the first message, after the attacker's
+        #     own greeting, twice.  A nonce travels in the clear and proves nothing about who sends it.
+        for who, nonce in (('the victim', 1), ('the second honest peer', 2), ('the third honest peer', 4), ('the node itself', w.node.lp.nonce)):
+            for port in (2412, 0):
+                hm = M_.HelloMessage([M_.SupportedVersion(0)], IPv6Address('::ffff:1.1.1.1'), 0, IPv6Address(0), port, nonce, b'vf')
+                fh = frame(hdr53 + hm.serialize())
+                yield 'replayed-greeting', "greeting of %s (nonce %d, port %d) alone" % (who, nonce, port), fh, False, F1
+                yield 'replayed-greeting', "own greeting, then greeting of %s (nonce %d, port %d)" % (who, nonce, port), \
+                    b''.join(hello) + fh, False, F1
+                yield 'replayed-greeting', "greeting of %s (nonce %d, port %d) twice, then get-peers" % (who, nonce, port), \
+                    fh + fh + frames[names.index('getpeers')], False, F1
         from . import c13
 
         class TW:
